@@ -15,13 +15,13 @@ CHECKS = {
    "Per scenario a counting run lists every hit of every named crash point (record mkdir/create/write/close/rename, index create/write, evaluation enter/deps-done/before-body/after-body/after-save, body start/middle/end) per target; one child per distinct (point,label,n) is SIGKILLed exactly there at limits 1 and 4, then a fresh process loads and rebuilds. Also every failure pattern of one body and sampled pairs. Exhaustive per scenario over the named points; scenarios are generated.",
    "Crash = kill -9 of the process (no power-loss model). Crash points are the ones named by the verif hooks plus the body points.", "DESIGN.md §5 C03"),
  "C04": ("exploration", "assertion monitors in harness Targets/Target at the runner's client boundary, schedule perturbation at hook yield points, Go race detector",
-   "runner.Run driven over generated acyclic graphs at limits 1,2,3,4,8,16 (CPU affinity) under PRNG schedules; the harness asserts load/evaluate at most once, dependency finished before the dependent continues, outcome identity by pointer, Run's result. Repeated under -race.",
+   "runner.Run driven over generated acyclic graphs at limits 1,2,3,4,8,16 (CPU affinity) under PRNG schedules; the harness asserts load/evaluate at most once, dependency finished before the dependent continues, outcome identity by pointer, Run's result. Repeated under -race. The same clause is also checked through real projects (dependency labels spelt in different legal ways, diamonds): every label is visited at most once per build.",
    "Trusts the harness counters (atomics) and the graph generator.", "DESIGN.md §5 C04"),
  "C05": ("exploration", "exhaustive small-graph sweep + random cyclic graphs under perturbed schedules; termination decided by the Go runtime deadlock detector and a quiescence monitor",
    "Every directed graph on <=3 (quick) / <=4 (thorough) nodes incl. self-loops plus random graphs with planted cycles, at limits 1,2,16, in children that use no timers so that the runtime's deadlock detector fires; fatal errors (stack overflow) name their case through the journal; cyclicity computed independently; -race children use goroutine dumps.",
    "Termination is restated as: no runtime-detected deadlock, no fatal error, all requested target goroutines finish after Run (bounded spin).", "DESIGN.md §5 C05"),
  "C06": ("exploration", "counter/event monitors on real dawn.Load over generated load graphs with yields between load statements; runtime deadlock detector; race detector",
-   "Generated load graphs (shared helpers that load other helpers, self-loads, 2..6-cycles, package files loading each other) x schedules; v.tick counters and ModuleLoading events (at most once), expected targets/flags for acyclic graphs, cyclic-dependency error for cyclic ones.",
+   "Generated load graphs (shared helpers that load other helpers, self-loads, 2..6-cycles, package files loading each other) x schedules that yield or rendezvous at named points inside loadModule/module.wait; v.tick counters and ModuleLoading events (at most once), expected targets/flags for acyclic graphs, cyclic-dependency error for cyclic ones.",
    "Trusts the load-graph generator and its DFS.", "DESIGN.md §5 C06"),
  "C07": ("exploration", "differential round-trip monitor with structural-isomorphism oracle over generated values",
    "Encode/Decode of the real codec on an exhaustive (container kind x size class x nesting position) matrix, every integer 0..70000 and all width boundaries, string length classes, aliasing/cycle patterns and PRNG-generated nested values; the oracle compares type, structure, order and sharing.",
@@ -30,7 +30,7 @@ CHECKS = {
    "Generated BUILD files combining up to 6 of 27 features (recursion, mutual recursion, closures, defaults, lambdas, comprehensions, every predeclared value, large and deeply nested data, ...): first build, second build of identical text (nothing may run, stamps equal), identical text in another directory, then mutations of something the function references (each must re-execute). Fatal errors are attributed through the journal. Exotic constructs live in named scenarios (two are known findings).",
    "A nested closure that refers to itself through a cell makes the interpreter dawn depends on overflow its stack while freezing module globals (the module does not load): counted, not reported.", "DESIGN.md §5 C08"),
  "C09": ("exploration", "shadow-state monitor of the gate under its own mutex (hook) + harness occupancy counter, limits via CPU affinity",
-   "Wide fans and meshes at limits 1,2,3,4,8,16: the number of targets inside LoadTarget/Evaluate but outside EvaluateTargets never exceeds the limit, shadow capacity stays in [0,limit], acquisitions = releases and capacity restored at quiescence; evidence counts how often the limit was reached.",
+   "Wide fans, meshes and cyclic graphs (error paths) at limits 1,2,3,4,8,16: the number of targets inside LoadTarget/Evaluate but outside EvaluateTargets never exceeds the limit, shadow capacity stays in [0,limit], acquisitions = releases and capacity restored at quiescence; evidence counts how often the limit was reached.",
    "Trusts the hook placement (inside gate.enter/exit under g.m) and that taskset sets runtime.NumCPU (asserted in the child).", "DESIGN.md §5 C09"),
  "C10": ("exploration", "differential monitor against an independent reachability/max reference over generated universes (fake VCS dialer)",
    "mvs.BuildList on generated universes (diamonds, cycles, @vN majors, pre-releases), resolved with fresh and warm caches and permuted requirement names, compared with a 25-line reference.",
@@ -54,7 +54,7 @@ CHECKS = {
    "Diff(a,b) on all pairs of words over {a,b} up to length 4 as string/bytes/tuple/list, generated nested values paired with mutated copies and unrelated values, and large pairs crossing the route-size fallback; all failed assertions of a case are reported. The rebuild reason of TargetEvaluating is checked against the delivered diff on generated project edits.",
    "Trusts starlark.EqualDepth as the notion of equality.", "DESIGN.md §5 C16"),
  "C17": ("exploration", "differential monitor against an independent recursive matcher; glob() and ignore lists on generated trees",
-   "Every single pattern up to 3/4 tokens against every path up to 4/5 characters (exhaustive), sampled lists of 2-3 patterns and longer random patterns, plus the glob() builtin and the ignore list on generated directory trees of a loaded project.",
+   "Every single pattern up to 3/4 tokens against every path up to 4/5 characters (exhaustive), sampled lists of 2-3 patterns and longer random patterns, plus the glob() builtin, os.glob and the ignore list on generated directory trees of a loaded project.",
    "Unescaped [ ] and empty paths are outside the grammar.", "DESIGN.md §5 C17"),
  "C18": ("exploration", "offline trace checker (per-label finite-state grammar + run-level rules) over event logs recorded through dawn.Events and the run(callback=) channel; race detector",
    "Generated projects with emitting bodies (PRNG-chunked text through the real lineWriter), failing bodies, missing and cyclic dependencies, dry runs, two Runs on one loaded project, and every chunking of 8 short texts; a recorder logs all events under one mutex and the checker applies U | E P* S | E P* F | F per label, the RunDone rules, line equality, 'evaluating iff the body ran'.",
@@ -63,7 +63,7 @@ CHECKS = {
    "Write/Load/Write on configs with hostile strings (quotes, control characters, Unicode, TOML-significant text, the empty string) in every position.",
    "Strings are valid UTF-8.", "DESIGN.md §5 C19"),
  "C20": ("exploration", "linearizability checking (porcupine) of recorded concurrent histories + direct counters, under the race detector",
-   "Short histories of concurrent once calls on the real Cache builtin (2-32 goroutines, 1-4 keys, failing callables) recorded at the client boundary and checked against the sequential specification partitioned by key.",
+   "Short histories of concurrent once calls on the real Cache builtin (2-32 goroutines, 1-4 keys, failing callables) recorded at the client boundary and checked against the sequential specification partitioned by key; plus a module-level Cache shared by the parallel targets of real builds (invocation counters).",
    "Intervals of invoked operations are narrowed to the callable's execution (client code), which is sound.", "DESIGN.md §5 C20"),
 }
 PENDING = {}
